@@ -185,7 +185,7 @@ func TestVerifChild(t *testing.T) {
 	utils.VerifHook = vhook
 	for _, sn := range req.Snaps {
 		sc := &scen{ID: "child", Conf: req.Conf, Keys: req.Real}
-		r := &runner{sc: sc, dir: sn.Dir, keys: req.Keys, vals: map[string]int{}, pendingRot: map[int]bool{}}
+		r := &runner{sc: sc, dir: sn.Dir, keys: req.Keys, vals: map[string]int{}, pendingRot: map[int]bool{}, rotHandled: map[int]bool{}}
 		for _, g := range req.Gen {
 			r.valBytes(g.V, g.Key, g.NBlk)
 		}
